@@ -33,7 +33,7 @@ def ws_facts(sc):
 
 def _run(fields):
     return {"harness": "hws", "driver": "wsdrv", "fields": fields, "corpus": "ws",
-            "quick": {"n": 320, "shards": 16, "timeout": 400}, "thorough": {"n": 2500, "shards": 32, "timeout": 3000}}
+            "quick": {"n": 320, "shards": 16, "timeout": 400}, "thorough": {"n": 1500, "shards": 32, "timeout": 3000}}
 
 
 COMMON_ASSUME = [
@@ -81,7 +81,9 @@ PROPS = {
         "oracles": ["c13-"],
         "rule": "same streams as C12; distinct by hash of (role, compression, limits, per-Parse outcome, RFC verdict); non-trivial iff a frame was "
                 "completed or refused",
-        "assumptions": COMMON_ASSUME + ["close replies of a failing endpoint may carry any failure code (1002/1003/1007-1011)"],
+        "assumptions": COMMON_ASSUME + ["close replies of a failing endpoint may carry any failure code (1002/1003/1007-1011)",
+                                        "utf8.Valid = the model's utf8Valid: swept over all 1- and 2-byte strings on every run (split over the shards), "
+                                        "sampled at 3 and 4 bytes around the encoding boundaries, and compared through every twin line"],
     },
     "C15": {
         "manifest": {
